@@ -426,12 +426,111 @@ def exCsv : CsvFile :=
 
 /-- non-vacuity of `readCsv_spec`: one mass (the preamble line `Intensity Vs Time,CPS` has the
 header's comma count), CRLF line ends, blank and text footer -/
-example : CsvWF exCsv :=
+theorem exCsv_wf : CsvWF exCsv :=
   ⟨by decide, by decide, by decide, by decide, by decide, by decide, by decide, by decide, by
     intro r hr f hf
     simp only [exCsv, List.mem_cons, List.not_mem_nil, or_false] at hr
     rcases hr with rfl | rfl <;> simp only [List.mem_cons, List.not_mem_nil, or_false] at hf <;>
       rcases hf with rfl | rfl <;> exact ⟨_, rfl⟩⟩
+
+/-- The whole CSV import equals its specification: pixel `[line][element][scan]` is the decimal
+value printed in field `element + 1` of data row `scan` of that line's export, a line without
+export is all zeros, lines are the collected ones in collected order, and the columns are named by
+the header (or, when the method file supplies names for every element, by those) — for every batch
+whose exports are well-formed and of one shape (`ncol` columns, `nscan ≥ 2` rows, first column
+`Time [Sec]`), any number of lines and any subset of them missing. -/
+theorem csv_pixel {α : Type} (m : Meta) (files : List (DataFile α)) (names : Option (List Name))
+    (methods : List Method) (ncol nscan : Nat) (hscan : 2 ≤ nscan)
+    (hfiles : ∀ f ∈ files, ∀ c, f.csv = some c →
+      CsvWF c ∧ c.header.length = ncol ∧ c.rows.length = nscan ∧ (c.header.head?).map validName = some timeName)
+    (hnames : ∀ ns, names = some ns → ns.length = ncol - 1)
+    (hlines : linesOf m false methods = linesOf m true methods) :
+    loadCsv m files names methods = loadCsvSpec m files names methods := by
+  unfold loadCsv loadCsvSpec
+  rw [hlines]
+  cases linesOf m true methods with
+  | error e => rfl
+  | ok lines =>
+    simp only
+    cases hd : allSome (lines.map (findFile files)) with
+    | none => rfl
+    | some dfs =>
+      have hmem := mem_files_of_lines files lines dfs hd
+      simp only
+      have htabs : allSome (dfs.map (fun f => readLine f.csv)) = some (dfs.map (fun f => f.csv.map tableOf)) := by
+        apply allSome_map_of_forall
+        intro f hf
+        cases hc : f.csv with
+        | none => rfl
+        | some c =>
+          simp only [readLine, Option.map_some]
+          rw [readCsv_spec c (hfiles f (hmem f hf) c hc).1]
+          rfl
+      rw [htabs]
+      simp only
+      have hfm := filterMap_id_map_option dfs (·.csv) tableOf
+      rw [hfm]
+      cases hcs : dfs.filterMap (·.csv) with
+      | nil => rfl
+      | cons c0 rest =>
+        have hc0 : ∃ f ∈ dfs, f.csv = some c0 := by
+          have : c0 ∈ dfs.filterMap (·.csv) := by rw [hcs]; simp
+          obtain ⟨f, hf, e⟩ := List.mem_filterMap.mp this
+          exact ⟨f, hf, e⟩
+        obtain ⟨f0, hf0, e0⟩ := hc0
+        obtain ⟨W0, hcol0, hrow0, htime0⟩ := hfiles f0 (hmem f0 hf0) c0 e0
+        simp only [List.map_cons, tableOf, List.length_map, hrow0, hcol0]
+        rw [if_neg (by omega)]
+        have hshape : ((dfs.map (fun f => f.csv.map tableOf)).all (shapeOk nscan ncol)) = true := by
+          rw [List.all_eq_true]
+          intro t ht
+          obtain ⟨f, hf, rfl⟩ := List.mem_map.mp ht
+          cases hc : f.csv with
+          | none => rfl
+          | some c =>
+            obtain ⟨_, h1, h2, _⟩ := hfiles f (hmem f hf) c hc
+            simp [shapeOk, tableOf, h1, h2]
+        rw [hshape]
+        simp only [Bool.not_true, Bool.false_eq_true, if_false]
+        have hcols : allSome (dfs.map (fun f => csvLineSpec ncol nscan f.csv))
+            = some (dfs.map (fun f => csvCols ncol nscan (f.csv.map tableOf))) := by
+          apply allSome_map_of_forall
+          intro f hf
+          cases hc : f.csv with
+          | none => rfl
+          | some c =>
+            obtain ⟨W, h1, _, _⟩ := hfiles f (hmem f hf) c hc
+            exact csvCols_eq_spec ncol nscan c W.parse (fun r hr => by rw [W.width r hr, h1])
+        rw [hcols, List.map_map]
+        -- names
+        cases hh : c0.header with
+        | nil => rw [hh] at htime0; simp at htime0
+        | cons t0 rest0 =>
+          rw [hh] at htime0 hcol0
+          simp only [List.head?_cons, Option.map_some, Option.some.injEq] at htime0
+          cases names with
+          | none =>
+            simp [csvNames?, htime0]
+          | some ns =>
+            have hl := hnames ns rfl
+            have : ns.length = (rest0.map validName).length := by
+              rw [List.length_map]; simp only [List.length_cons] at hcol0; omega
+            simp [csvNames?, renameFields_full _ _ _ this, htime0]
+
+def exCsvFiles : List (DataFile Nat) :=
+  [{ name := "9.d".toList, hasBinary := false, scans := [], profile := [], csv := some exCsv },
+   { name := "10.d".toList, hasBinary := false, scans := [], profile := [], csv := none }]
+
+/-- non-vacuity of `csv_pixel`: two lines, the second without export -/
+example : ∀ f ∈ exCsvFiles, ∀ c, f.csv = some c →
+    CsvWF c ∧ c.header.length = 2 ∧ c.rows.length = 2 ∧ (c.header.head?).map validName = some timeName := by
+  intro f hf c hc
+  simp only [exCsvFiles, List.mem_cons, List.not_mem_nil, or_false] at hf
+  rcases hf with rfl | rfl
+  · simp only [Option.some.injEq] at hc
+    subst hc
+    exact ⟨exCsv_wf, rfl, rfl, by decide⟩
+  · simp at hc
 
 /-- A line whose CSV is missing is zero-filled: every column (the time column included) of every
 scan is 0; a line whose CSV is present holds, at `[column][scan]`, field `column` of data row `scan`. -/
